@@ -6,6 +6,7 @@
   the API; the right-hand sides are the `List` operations that define `Vec`'s behaviour.
 -/
 import AnyVecModel.Proofs.Exec
+import AnyVecModel.Proofs.Move
 namespace AnyVec
 namespace C01
 open World
@@ -155,6 +156,32 @@ theorem clear_clears (cfg : Cfg) (w : World) (v : Nat) (d : VecSt)
   · simp [World.vis, hlt, VecSt.abs]
   · simp [World.logDrops_dropLog]
   · simp
+
+/-- a removed element moved into another vector (`dst.push(src.remove(i))`, fully type-erased, no
+intermediate copy): `src` loses exactly that element, `dst` gains exactly it at the end, nothing is
+destroyed or cloned, no other vector changes. -/
+theorem remove_then_push_moves (cfg : Cfg) (w : World) (src dst i id : Nat) (s d d1 : VecSt) (es : List Event)
+    (hsd : src ≠ dst)
+    (hs : w.vecs[src]? = some s) (hsl : s.live = true) (hswf : s.WF) (hi : i < s.len)
+    (hc : s.cells.get i = .val id)
+    (hv : w.vecs[dst]? = some d) (hl : d.live = true) (hwf : d.WF) (hty : s.ty = d.ty)
+    (hr : d.reserveOne = .ok (d1, es)) :
+    let r := step cfg (.remove src i (.pushTo dst)) w
+    r.2 = .ok [] ∧ r.1.vis src = (w.vis src).eraseIdx i ∧ r.1.vis dst = w.vis dst ++ [.val id] ∧
+      (∀ u, u ≠ src → u ≠ dst → r.1.vis u = w.vis u) ∧
+      r.1.dropLog = w.dropLog ∧ r.1.held = w.held ∧ r.1.created = w.created := by
+  have hlt : dst < w.vecs.length := (List.getElem?_eq_some_iff.mp hv).1
+  have hslt : src < w.vecs.length := (List.getElem?_eq_some_iff.mp hs).1
+  have hsdd : w.vecs[src] = s := (List.getElem?_eq_some_iff.mp hs).2
+  have hd : w.vecs[dst] = d := (List.getElem?_eq_some_iff.mp hv).2
+  obtain ⟨_, _, habs, hwf1, _⟩ := reserveOne_spec d d1 es hwf hr
+  intro r
+  rw [show r = _ from remove_push_exec cfg w src dst i id s d d1 es hsd hs hsl hswf hi hc hv hl hwf hty hr]
+  refine ⟨rfl, ?_, ?_, ?_, rfl, rfl, rfl⟩
+  · simp [World.vis, hslt, VecSt.removeAt_abs _ _ hswf hi, hsdd]
+  · simp [World.vis, List.getElem?_set, hsd, hlt, VecSt.pushCell_abs _ _ hwf1, habs, hd]
+  · intro u hu1 hu2
+    simp [World.vis, List.getElem?_set, Ne.symm hu1, Ne.symm hu2]
 
 /-! non-vacuity: a concrete world meeting the hypotheses -/
 def sampleVec : VecSt :=
